@@ -1071,8 +1071,8 @@ func isDigits(s string) bool {
 // running one history
 
 type Case struct {
-	Hist []Op `json:"hist"`
-	Open int  `json:"open"` // index of the first operation of the shared last block; -1: every operation has its own block
+	Hist []Op   `json:"hist"`
+	Open int    `json:"open"` // index of the first operation of the shared last block; -1: every operation has its own block
 	Text string `json:"text,omitempty"`
 }
 
@@ -1424,9 +1424,10 @@ func run(c *fw.Ctx) {
 	}
 	full := alphabet(c.Thorough())
 	c.Note("phase1", fmt.Sprintf("alphabet of %d operation classes, all histories to depth %d", len(full), d1))
-	if !bfs(c, "full alphabet", full, d1, 1) {
-		return
-	}
+	// the first phase may use at most 65% of the time budget, the second phase the rest
+	phaseDeadline = time.Now().Add(time.Until(c.Deadline) * 65 / 100)
+	bfs(c, "full alphabet", full, d1, 1)
+	phaseDeadline = c.Deadline
 	if d2 > 0 {
 		red := reducedAlphabet()
 		c.Note("phase2", fmt.Sprintf("reduced alphabet of %d operation classes, all histories to depth %d", len(red), d2))
@@ -1434,6 +1435,8 @@ func run(c *fw.Ctx) {
 		bfs(c, "reduced alphabet", red, d2, d1+1)
 	}
 }
+
+var phaseDeadline time.Time
 
 func peakRSSMB() int {
 	b, _ := os.ReadFile("/proc/self/status")
@@ -1483,7 +1486,7 @@ func bfs(c *fw.Ctx, phase string, ops []Op, depth int, countFrom int) bool {
 					if d == 2 && !c.Mine(caseIdx) {
 						continue
 					}
-					if c.Expired() {
+					if c.Expired() || time.Now().After(phaseDeadline) {
 						c.Cap(fmt.Sprintf("time: %s, depth %d not finished", phase, d))
 						return false
 					}
